@@ -379,6 +379,10 @@ func (w *WAL) ReadAll() (metadata []byte, state raftpb.HardState, ents []raftpb.
 					return nil, state, nil, fmt.Errorf("index out of range, corrupt data: %v-%v", up, len(ents))
 				}
 				ents = append(ents[:up], e)
+			} else {
+				// an entry at or below the start index overwrites the log from there,
+				// so the entries read so far above the start index were truncated
+				ents = ents[:0]
 			}
 			w.enti = e.Index
 		case stateType:
